@@ -33,6 +33,10 @@ func init() {
 	extendProp("C01", "(R1.12) in both step machines the pass that advances CurrentStepIndex ends without a further API write: the new step is acted on (BatchRelease written) only by a later pass, which starts from the persisted status.", r6C01)
 	extendProp("C20", "(R20.8) the four conversion methods return a non-nil error only on the branch where the hub object is not of the supported type: no value inside a schema-admitted object makes conversion fail.", r6C20)
 	extendProp("C16", "(R16.12) Encode returns exactly the bytes encoding/json produced (no textual post-processing of the marshalled form): whatever Decode produced from valid JSON encodes back to valid JSON.", r6C16)
+	extendProp("C06", "(R6.9) R6.1's error discipline extended to the workload finder (pkg/util.ControllerFinder): a failed read while resolving the workload is an error of the reconcile, never an 'inconsistent, wait' or 'absent' answer — the terminating and disabling paths act on that answer.", r6C06)
+	extendProp("C13", "(R13.9) the list on which the Gateway provider chooses between generated match rules and weighted backends is the step's own matches on every path (matches take precedence when a step sets both).", r6C13)
+	extendProp("C17", "(R17.10) no function of the Deployment controller writes through a *ReplicaSet / []*ReplicaSet parameter (map update, store through a pointer field, directly or via a callee) unless a DeepCopy lies in between: these objects are the informer cache's, and the scaling arithmetic of the next sync reads them.", r6C17)
+	extendProp("C17", "(R17.11) cleanupUnhealthyReplicas skips an old ReplicaSet only when its spec is 0 or equals its available count exactly; a ReplicaSet reporting more available pods than its spec stops the pass (its status lags behind a scale-down already made).", r6C17b)
 	extendProp("C08", "(R8.10) both admission handlers answer 'this workload is not selected by the webhook configuration' only after every entry and rule was examined (or the entry's selector cannot be parsed): the first entry whose rule matches does not decide alone.", r6C08)
 }
 
@@ -279,12 +283,67 @@ func r6C09(c *Ctx) {
 		if !mayNil {
 			continue
 		}
-		t := TermOf(site.Args[mi])
-		root, path := t.FieldPath()
-		_, rootIsParam := root.V.(*ssa.Parameter)
-		own := rootIsParam && len(path) > 0 && path[len(path)-1] == "Matches"
+		isOwn := func(v ssa.Value) bool {
+			root, path := TermOf(v).FieldPath()
+			_, rootIsParam := root.V.(*ssa.Parameter)
+			return rootIsParam && len(path) > 0 && path[len(path)-1] == "Matches"
+		}
+		// R9.8: wherever the list is not the step's own, the weight is known to be set
+		own, always := true, true
+		desc := ""
+		for _, lf := range Leaves(Forwarded(site.Args[mi]), site.Instr.Block()) {
+			if isOwn(lf.V) {
+				continue
+			}
+			always = false
+			if !HasFact(lf.Facts, FNotNil(MField("Traffic"))) {
+				own = false
+				desc = TermOf(lf.V).String()
+			}
+		}
 		c.Ob("R9.8", FuncName(site.Caller)+"#matches-are-the-steps-own", site.Instr.Pos(), own, "the match list handed on with a possibly absent weight is strategy.Matches itself",
-			ifs(!own, "the list is "+t.String()+": if it can be empty while the step's own list is not, a step without weight reaches the weight routes and the nil weight is dereferenced — a panic in the reconcile worker on every retry"))
+			ifs(!own, "the list can be "+desc+": if it can be empty while the step's own list is not, a step without weight reaches the weight routes and the nil weight is dereferenced — a panic in the reconcile worker on every retry"))
+		_ = always
+	}
+}
+
+// r6C13: R13.9 — the list the Gateway provider decides on is the step's own in every case (C13:
+// a step that configures matches is a match step whatever else it sets).
+func r6C13(c *Ctx) {
+	p := c.Prog
+	c.Rule("R13.9", "the Gateway provider decides between match routes and weight routes on the step's own match list", 1)
+	gp := "pkg/trafficrouting/network/gateway."
+	build := p.Func(gp + "gatewayController.buildDesiredHTTPRoute")
+	ensure := p.Func(gp + "gatewayController.EnsureRoutes")
+	if build == nil || ensure == nil {
+		c.Unresolved("R13.9", "gatewayController.buildDesiredHTTPRoute / EnsureRoutes")
+		return
+	}
+	mi := -1
+	for i, par := range build.Params {
+		if ts := par.Type().String(); strings.HasSuffix(ts, "HttpRouteMatch") && strings.HasPrefix(ts, "[]") {
+			mi = i
+		}
+	}
+	n := 0
+	for _, site := range p.Callers(build) {
+		if site.Caller != ensure || site.Args == nil || mi < 0 || mi >= len(site.Args) {
+			continue
+		}
+		n++
+		bad := ""
+		for _, lf := range Leaves(Forwarded(site.Args[mi]), site.Instr.Block()) {
+			root, path := TermOf(lf.V).FieldPath()
+			_, rootIsParam := root.V.(*ssa.Parameter)
+			if !(rootIsParam && len(path) > 0 && path[len(path)-1] == "Matches") {
+				bad = TermOf(lf.V).String()
+			}
+		}
+		c.Ob("R13.9", "gatewayController.EnsureRoutes#decides-on-step-matches", site.Instr.Pos(), bad == "", "the list passed to buildDesiredHTTPRoute is strategy.Matches on every path",
+			ifs(bad != "", "on some path the list is "+bad+": a step that sets matches (together with a weight, or matches this code drops) is then run as a plain weight step — a share of ALL requests reaches the canary instead of the matching ones only"))
+	}
+	if n == 0 {
+		c.Ob("R13.9", "gatewayController.EnsureRoutes#decides-on-step-matches", ensure.Pos(), false, "call of buildDesiredHTTPRoute in EnsureRoutes", "anchor not found")
 	}
 }
 
@@ -537,4 +596,147 @@ func r6C16(c *Ctx) {
 		}
 	}
 	c.Ob("R16.12", "Encode#marshal-result-unchanged", fn.Pos(), n > 0 && bad == "", "what Encode returns is what encoding/json produced", bad+ifs(n == 0, "no returned value found"))
+}
+
+// ---------------------------------------------------------------- C06 R6.9
+
+func r6C06(c *Ctx) {
+	p := c.Prog
+	c.Rule("R6.9", "no read error of the workload finder is lost", 8)
+	// calls that talk to the API server, directly or through repository functions
+	direct := func(ci ssa.CallInstruction) bool {
+		cc := ci.Common()
+		if !cc.IsInvoke() || !strings.Contains(cc.Value.Type().String(), "client.") {
+			return false
+		}
+		switch cc.Method.Name() {
+		case "Get", "List", "Patch", "Update", "Create", "Delete", "DeleteAllOf":
+			return true
+		}
+		return false
+	}
+	talks := map[*ssa.Function]bool{}
+	for changed := true; changed; {
+		changed = false
+		for _, fn := range p.RepoFuncs() {
+			if talks[fn] {
+				continue
+			}
+			for _, ci := range AllCalls(fn) {
+				hit := direct(ci)
+				for _, cal := range p.Callees(ci) {
+					if talks[cal] {
+						hit = true
+					}
+				}
+				if hit {
+					talks[fn] = true
+					changed = true
+					break
+				}
+			}
+		}
+	}
+	checkErrorDisciplineF(c, "R6.9", func(fn *ssa.Function) bool {
+		return strings.HasPrefix(FuncName(fn), "pkg/util.ControllerFinder.")
+	}, func(ci ssa.CallInstruction) bool {
+		if direct(ci) {
+			return true
+		}
+		for _, cal := range p.Callees(ci) {
+			if talks[cal] {
+				return true
+			}
+		}
+		return false
+	})
+}
+
+// ---------------------------------------------------------------- C17 R17.10
+
+func r6C17(c *Ctx) {
+	p := c.Prog
+	c.Rule("R17.10", "the Deployment controller never writes through a ReplicaSet it was handed (informer cache objects)", 10)
+	writes := ParamWriteThroughs(p)
+	n := 0
+	for _, fn := range p.RepoFuncs() {
+		if !strings.HasPrefix(FuncName(fn), "pkg/controller/deployment.") || fn.Parent() != nil {
+			continue
+		}
+		for i, par := range fn.Params {
+			ts := par.Type().String()
+			// (the Deployment is deep-copied once at the top of syncDeployment; the ReplicaSets are the lister's)
+			if !strings.HasSuffix(ts, "k8s.io/api/apps/v1.ReplicaSet") {
+				continue
+			}
+			n++
+			why := writes[fn][i]
+			// one cause, one report: a write that a callee inside this package performs is reported there
+			if k := strings.LastIndex(why, " in "); k >= 0 {
+				if origin := why[k+4:]; origin != FuncName(fn) && strings.HasPrefix(origin, "pkg/controller/deployment.") {
+					why = ""
+				}
+			}
+			c.Ob("R17.10", FuncName(fn)+"#param("+par.Name()+")", fn.Pos(), why == "", "the object handed in is only read; changes are made on a DeepCopy",
+				ifs(why != "", why+": the object comes from the lister, so the write lands in the informer cache — if the API update then fails, the next sync computes from a size that was never stored, and nothing corrects the cache because the server object did not change"))
+		}
+	}
+	if n == 0 {
+		c.Unresolved("R17.10", "functions of pkg/controller/deployment taking a ReplicaSet / Deployment")
+	}
+}
+
+// ---------------------------------------------------------------- C17 R17.11
+
+func r6C17b(c *Ctx) {
+	p := c.Prog
+	c.Rule("R17.11", "cleanupUnhealthyReplicas passes over an old ReplicaSet only when it is empty or exactly as available as specified", 1)
+	fn := p.Func("pkg/controller/deployment.DeploymentController.cleanupUnhealthyReplicas")
+	if fn == nil {
+		c.Unresolved("R17.11", "DeploymentController.cleanupUnhealthyReplicas")
+		return
+	}
+	scale := func(in ssa.Instruction) bool {
+		ci, ok := in.(ssa.CallInstruction)
+		if !ok {
+			return false
+		}
+		for _, g := range p.Callees(ci) {
+			if strings.HasPrefix(g.Name(), "scaleReplicaSet") {
+				return true
+			}
+		}
+		return false
+	}
+	spec := MHas(MField("Spec", "Replicas"))
+	allowed := FOr(FCmp("==", spec, MConst("0")), FCmp("==", spec, MHas(MField("AvailableReplicas"))))
+	n := 0
+	bad := ""
+	for _, h := range fn.Blocks {
+		// loop header of the range over the old ReplicaSets: has an induction phi and lies on a cycle
+		isHeader := false
+		for _, in := range h.Instrs {
+			if ph, ok := in.(*ssa.Phi); ok && isInductionVar(ph) {
+				isHeader = true
+			}
+		}
+		lb := loopBlocks(h)
+		if !isHeader || !lb[h] {
+			continue
+		}
+		for _, body := range h.Succs {
+			if !lb[body] {
+				continue
+			}
+			n++
+			back := func(in ssa.Instruction) bool { return in.Block() == h && in == h.Instrs[0] }
+			reach, _ := CanReach(Point{Block: body}, back, ReachOpts{CutInstr: scale, CutEdge: func(b *ssa.BasicBlock, k int) bool {
+				return EdgeFactMatches(b, k, allowed)
+			}})
+			if reach {
+				bad = "the loop can move on to the next ReplicaSet without scaling this one and without having established spec.replicas == 0 or spec.replicas == status.availableReplicas: a ReplicaSet whose status still counts pods that are already being removed (status.available > spec) is passed over, and the rolling scale-down that follows counts those pods as available"
+			}
+		}
+	}
+	c.Ob("R17.11", "cleanupUnhealthyReplicas#skip-only-when-exact", fn.Pos(), n > 0 && bad == "", "an old ReplicaSet is passed over only when empty or when spec equals the available count", bad+ifs(n == 0, "loop over the old ReplicaSets not found"))
 }
